@@ -184,7 +184,7 @@ def gen_case(rng, features=None, max_datasets=4, allow_full=True, allow_two_grou
     use_scale = pick("dataset_scale", [False, True])
     use_mcscale = pick("megacomplex_scale", [False, True])
     ncon = pick("constraints", [0, 1, 2], p=[0.5, 0.3, 0.2])
-    nrel = pick("relations", [0, 1], p=[0.6, 0.4])
+    nrel = pick("relations", [0, 1, 2], p=[0.55, 0.3, 0.15])
     npen = pick("penalties", [0, 1, 2], p=[0.6, 0.3, 0.1])
     iv_kind = pick("intervals", ["none", "finite", "mixed"], p=[0.3, 0.4, 0.3])
 
